@@ -17,6 +17,8 @@ CONSTANTS
   AllowProgress = FALSE
   PreFF = {FALSE, TRUE}
   Coded = {}
+  SubErrs = {}
+  DetIds = {"fresh"}
 VIEW ViewNoHist
 INVARIANT Verdict
 INVARIANT TagsScoped
